@@ -56,8 +56,8 @@ def meth(ch, name, args=b"", fields=()):
     return Fr(amqp.method(ch, name, args), ["method", ch, c, m] + list(fields))
 
 
-def conn_close(code, text, ch=0):
-    return meth(ch, "connection.close", amqp.close_args(code, text), [fn(code), fx(text)])
+def conn_close(code, text, ch=0, cls=0, mid=0):
+    return meth(ch, "connection.close", amqp.close_args(code, text, cls, mid), [fn(code), fx(text)])
 
 
 def conn_close_ok(ch=0):
@@ -868,7 +868,7 @@ def burst_cases(rng, prefix="u"):
     """Hundreds of frames readable in ONE wake-up (one `feed` + one readable event), then a quiet
     server: every frame is acted on in that wake-up - the socket is edge-triggered, nobody comes back."""
     cases = []
-    for k, (ndeliv, nbody) in enumerate([(100, 0), (45, 1), (1, 300), (60, 3)]):
+    for k, (ndeliv, nbody) in enumerate([(100, 0), (45, 1), (1, 300), (60, 3), (700, 0), (1200, 0), (2, 1500)]):
         g = Gen(rng, chmax=2, bound=4, via_stream=1.0)
         h1 = g.open_channel(1); g.bind_opened(h1, 1)
         h2 = g.open_channel(2); g.bind_opened(h2, 2)
@@ -897,8 +897,10 @@ def frames_then_fault_cases(rng, prefix="z"):
     followed at once by a hang-up is still a server close), then the fault is reported."""
     cases = []
     n = 0
-    for fault in ("eof", "err", "err:reset", "bad"):
-        for lead in ("conn-close", "deliveries", "chan-close", "reply"):
+    for fault, lead, letters in [(f, l, e) for f in ("eof", "err", "err:reset", "bad") for l in ("conn-close", "deliveries", "chan-close", "reply") for e in ("r", "rh")]:
+        if True:
+            # (`rh`: the readiness event also carries the hang-up bit, as epoll reports it when the peer
+            #  has shut down - the unread frames are in the socket all the same and must be read)
             g = Gen(rng, chmax=2, bound=4, via_stream=1.0)
             h1 = g.open_channel(1); g.bind_opened(h1, 1)
             cl = g.consume(h1, "t1")
@@ -918,7 +920,7 @@ def frames_then_fault_cases(rng, prefix="z"):
                 g.op("feed c:" + (data + bad).hex())
             else:
                 g.op("feed c:%s %s" % (data.hex(), fault))
-            g.op("ev stream r")
+            g.op("ev stream " + letters)
             g.op("recv %s -" % h1); g.op("recv %s -" % h1)
             g.op("crecv " + cl); g.op("crecv " + cl); g.op("crecv " + cl)
             g.op("done")
